@@ -1,7 +1,7 @@
 """C13 — tokenized BASIC output is a well-formed MO5 program with the right token codes"""
 import re
 
-from framework import CaseResult, text_points, points_text
+from framework import scale, CaseResult, text_points, points_text
 from props.basiccommon import run_lst2bas, vocabulary, split_listing_lines
 
 GEN_FILES = ["GenBasic"]
@@ -87,7 +87,7 @@ def gen_case(rng):
 
 
 def gen_cases(rng, tier):
-    n = 600 if tier == "quick" else 20000
+    n = scale(tier, 600, 20000)
     return [gen_case(rng) for _ in range(n)], {"random": n}
 
 
